@@ -31,7 +31,7 @@ PROPS = {
     },
     "C05": {
         "title": "Every feasible configuration terminates",
-        "lean": ["TopsimProps.C05", "TopsimProofs.Bridge.Admission", "TopsimProofs.Bridge.BufferArith", "TopsimProofs.Bridge.Sched", "TopsimProps.C05Live", "TopsimProps.C05LiveBatch", "TopsimProps.C05LivePlan"],
+        "lean": ["TopsimProps.C05", "TopsimProofs.Bridge.Admission", "TopsimProofs.Bridge.BufferArith", "TopsimProofs.Bridge.Sched", "TopsimProps.C05Live", "TopsimProps.C05LiveBatch", "TopsimProps.C05LivePlan", "TopsimProps.C08Promised"],
         "streams": [("feasible", 40, 800), ("tiering", 16, 200), ("samestep", 12, 150), ("edge", 32, 600), ("hotwait", 12, 200)],
         "monitor": ["C05"],
     },
@@ -51,7 +51,7 @@ PROPS = {
     },
     "C08": {
         "title": "Observations start only when all resources are free, and on time when idle",
-        "lean": ["TopsimProps.C08", "TopsimProps.C08Traj", "TopsimProofs.Bridge.Admission", "TopsimProofs.Bridge.Sched", "TopsimProps.C08Sim"],
+        "lean": ["TopsimProps.C08", "TopsimProps.C08Traj", "TopsimProofs.Bridge.Admission", "TopsimProofs.Bridge.Sched", "TopsimProps.C08Sim", "TopsimProps.C08Promised"],
         "streams": [("default", 40, 600), ("contended", 16, 300), ("idlestart", 12, 150), ("edge", 32, 600), ("hotwait", 12, 200)],
         "monitor": ["C08"],
     },
